@@ -112,6 +112,9 @@ func (l *c6Local) Ping(ctx context.Context, x int) (int, error)   { l.hit("Ping"
 func (l *c6Local) Probe(ctx context.Context, x int) (int, error)  { return x + 1, nil } // the harness's own liveness probe: not logged
 func (l *c6Local) Two(ctx context.Context, a string, b []int) (string, error) { l.hit("Two"); return a, nil }
 func (l *c6Local) lower(ctx context.Context) error                { l.hit("lower"); return nil }
+
+// a VARIADIC exported method (log-style helpers end up on exposed objects): callable with the format and ONE list
+func (l *c6Local) Logf(ctx context.Context, format string, args ...interface{}) error { l.hit("Logf"); return nil }
 func (l *c6Local) TakesFunc(ctx context.Context, cb func(ctx context.Context, x int) (int, error)) (int, error) {
 	l.hit("TakesFunc")
 	return cb(ctx, 1)
@@ -130,6 +133,7 @@ type c6Remote struct {
 }
 
 var c6Names = []string{
+	"Logf", // first: whatever a call of a variadic method leaves behind meets every later request
 	"Ping", "ping", "PING", "Ping ", " Ping", "Two", "lower", "TakesFunc", "CallClosure", "callClosure", "",
 	".", "..", "...", ".Ping", "Ping.", "Ping.X", "Ping..", "G.Hello", "G.secretHello", "G2.Hello", "G2.secretHello", "G2.hello", "G", "G2",
 	"X.Foo", "X", "EmbM", "C6Embedded.EmbM", "C6Embedded.X.Foo", "C6Embedded", "Y", "NilSub.Foo", "NilSub", "Leaf.Foo", "Leaf.foo", "Leaf.Foo.Bar", "Leaf.svc.Ping",
@@ -320,6 +324,24 @@ func subC06(args []string) {
 		return v
 	}
 	v := newVictim()
+	if systematic {
+		// the FIRST call the process ever dispatches is a valid call of the variadic method
+		warm := []byte(`{"call":"warm","function":"Logf","args":["x",[1,2]]}`)
+		if api == "message" {
+			v.in.Put(warm)
+		} else {
+			go v.pw.Write([]byte(fmt.Sprintf(`{"request":%s,"response":null}`+"\n", warm)))
+		}
+		select {
+		case <-v.answers:
+		case <-time.After(watchdog):
+			say("BAD a valid call of the variadic method Logf was not answered")
+		}
+		if len(local.hits) != 1 || local.hits[0] != "Logf" {
+			say("BAD a valid call of the variadic method Logf ran %v", local.hits)
+		}
+	}
+	sibBad := 0
 	links, answered, ended := 1, 0, 0
 	for i := 0; i < n; i++ {
 		kind, frame := c6Frame(rng, i)
@@ -416,6 +438,13 @@ func subC06(args []string) {
 				say("OK response ignored")
 			}
 		}
+		if systematic && len(local.hits) == before {
+			// "…then exactly that method of exactly that (sub-)object runs": a valid request for an exposed method runs it
+			mustRun := map[string]int{"Logf": 2, "Ping": 1, "Two": 2, "G2.Hello": 0, "Leaf.Foo": 0, "V.ValM": 0, "Deep.Foo": 0, "Pro.Foo": 0, "C6Pub.Pro.Foo": 0, "Foo": 0, "C6Pub.Foo": 0}
+			if n, ok := mustRun[c6Names[i/3]]; ok && n == i%3 {
+				say("BAD a valid request for the exposed method %q with %d argument(s) did not run it after frame %d", c6Names[i/3], n, i)
+			}
+		}
 		if len(local.hits) > before {
 			say("HIT %s", strings.Join(local.hits[before:], ","))
 			// application code ran: the frame must be a well-formed request for exactly that exposed method
@@ -423,7 +452,7 @@ func subC06(args []string) {
 				Function string            `json:"function"`
 				Args     []json.RawMessage `json:"args"`
 			}
-			allowed := map[string]string{"Ping": "Ping/1", "Two": "Two/2", "TakesFunc": "TakesFunc/1", "G2.Hello": "G2.Hello/0", "Leaf.Foo": "Leaf.Foo/0", "V.ValM": "V.ValM/0", "Deep.Foo": "Deep.Foo/0", "EmbM": "EmbM/0", "C6Embedded.EmbM": "EmbM/0",
+			allowed := map[string]string{"Logf": "Logf/2", "Ping": "Ping/1", "Two": "Two/2", "TakesFunc": "TakesFunc/1", "G2.Hello": "G2.Hello/0", "Leaf.Foo": "Leaf.Foo/0", "V.ValM": "V.ValM/0", "Deep.Foo": "Deep.Foo/0", "EmbM": "EmbM/0", "C6Embedded.EmbM": "EmbM/0",
 				"Pro.Foo": "Pro.Foo/0", "C6Pub.Pro.Foo": "Pro.Foo/0", "Foo": "C6Pub.Foo/0", "C6Pub.Foo": "C6Pub.Foo/0"}
 			if json.Unmarshal(frame, &req) != nil || kind != "req" {
 				say("BAD application code ran (%s) for a frame that is not a well-formed request", strings.Join(local.hits[before:], ","))
@@ -435,6 +464,12 @@ func subC06(args []string) {
 		r := withWatchdog(func() (any, error) { return sibRemote.Ping(context.Background(), i) })
 		if !r.ok || r.err != nil || r.val.(int) != i+1 {
 			say("BAD sibling link affected after frame %d: %+v", i, r)
+			sibBad++
+			if sibBad >= 3 {
+				// the sibling is gone for good: every further frame would only wait for the watchdog again
+				say("DONE aborted: the sibling link stays broken")
+				return
+			}
 		}
 	}
 	// ---- a stalled peer: it invokes a closure of ours (a valid CallClosure) and then never answers the
@@ -754,4 +789,31 @@ func firstLine(s string) string {
 		}
 	}
 	return strings.SplitN(s, "\n", 2)[0]
+}
+
+// systematicNames: the systematic name sweep (every name of the zoo × 0/1/2 arguments, a raw peer against a child
+// registry) for a property other than C06 / C07: every "BAD" line is a violation of prop.
+func systematicNames(rep *Report, prop string, seed int64) {
+	for _, api := range apis() {
+		cmd := exec.Command(os.Args[0], "-sub", "c06", fmt.Sprint(seed), "0", api, "systematic")
+		outB, err := cmd.Output()
+		last := ""
+		n := 0
+		for _, l := range strings.Split(string(outB), "\n") {
+			switch {
+			case strings.HasPrefix(l, "FRAME "):
+				last = l
+				n++
+			case strings.HasPrefix(l, "BAD "):
+				fr, _ := hex.DecodeString(strings.Fields(last + " x x")[2])
+				rep.addViolation("property", prop+":names:"+api+":"+strings.SplitN(l[4:], " after frame", 2)[0], fmt.Sprintf("%s (frame %q)", l[4:], fr), map[string]any{"suite": "systematic-names", "api": api, "frame": string(fr)})
+			}
+		}
+		rep.Evaluations += n
+		rep.Distinct += n
+		if err != nil || !strings.Contains(string(outB), "DONE") {
+			fr, _ := hex.DecodeString(strings.Fields(last + " x x")[2])
+			rep.addViolation("property", prop+":names:"+api+":crash", fmt.Sprintf("the process died after frame %q", fr), map[string]any{"suite": "systematic-names", "api": api, "frame": string(fr)})
+		}
+	}
 }
